@@ -323,6 +323,9 @@ func cmdCheck(args []string) int {
 	b, _ := json.MarshalIndent(ev, "", " ")
 	os.WriteFile(filepath.Join(verifDir(), "evidence", prop+".json"), b, 0o644)
 
+	for _, b := range raceBinaries {
+		os.Remove(b)
+	}
 	if len(violations) > 0 {
 		return 1
 	}
